@@ -11,7 +11,7 @@ def gen(rng, tier, n):
         udpmaxq = rng.choice([0, 0, 1, 2])
         steps = []
         tok = 0
-        shape = rng.choice(["idle-reuse", "busy-reuse", "fresh", "mixed", "mixed"])
+        shape = rng.choice(["idle-reuse", "busy-reuse", "late-round-reuse", "late-round-reuse", "fresh", "mixed", "mixed"])
         nq = rng.randint(1, 4)
         if shape == "idle-reuse":
             steps += ["q:%d:ans%d.example" % (tok, tok), "settle", "sleep:%d" % rng.choice([20, 60])]
@@ -20,6 +20,15 @@ def gen(rng, tier, n):
             tok += 1
         elif shape == "busy-reuse":
             steps += ["q:%d:sil%d.example" % (tok, tok), "sleep:%d" % rng.choice([5, 30, 120])]
+            tok += 1
+            steps += ["q:%d:sil%d.example" % (tok, tok)]
+            tok += 1
+        elif shape == "late-round-reuse":
+            # an older query is in a later retry round (doubled/quadrupled wait) when a fresh query
+            # with a shorter first-attempt deadline is sent on the same (busy) connection
+            timeout = rng.choice([100, 250])
+            tries = rng.choice([3, 4])
+            steps += ["q:%d:sil%d.example" % (tok, tok), "sleep:%d" % rng.choice([650, 800, 950])]
             tok += 1
             steps += ["q:%d:sil%d.example" % (tok, tok)]
             tok += 1
